@@ -11,9 +11,10 @@
 //	| {"ev":"enq","id":s,"prio":p,"ttl":ticks,"gate":bool}  start Enqueue in its own goroutine; with gate the
 //	     goroutine is held at the yield point dpq.before_park (between mutex.Unlock and the select)
 //	| {"ev":"park","id":s}      let a held goroutine go on into its select
-//	| {"ev":"tick"}             advance the clock by one tick (timers fire)
+//	| {"ev":"tick","rev":bool}  advance the clock by one tick; the timers that are due are delivered one at a
+//	     time, oldest first (rev: youngest first), each followed by a wait until everything is blocked again
 //	| {"ev":"conc","ops":[enq,...]}      arrivals started together
-//	| {"ev":"race","ops":[enq,...]}      one tick and arrivals started together, without waiting for the roll-over goroutine
+//	| {"ev":"race","ops":[enq,...]}      one tick, then arrivals started together, and only then the due timers (roll-over, TTLs)
 //
 // After every driver step the driver waits until every goroutine is blocked (goroutine dump, no sleeping)
 // and writes a "quiet" event.  At the end of a history the clock runs until every Enqueue has returned.
@@ -65,6 +66,7 @@ type Op struct {
 	Prio int    `json:"prio,omitempty"`
 	Ttl  int64  `json:"ttl,omitempty"`
 	Gate bool   `json:"gate,omitempty"`
+	Rev  bool   `json:"rev,omitempty"`
 	Ops  []Op   `json:"ops,omitempty"`
 }
 
@@ -82,7 +84,7 @@ type gate struct {
 
 type runner struct {
 	cfg     Config
-	clk     *vh.StepClock
+	clk     *c12q.Clock
 	dpq     *queue.DelayedPriorityQueue
 	plugin  *remedies.StrategyBasedQueuePlugin
 	tr      *vh.Trace
@@ -115,7 +117,7 @@ func (rn *runner) strategy() queue.Strategy {
 }
 
 func (rn *runner) fresh(now int64) {
-	rn.clk = vh.NewStepClock(at(now))
+	rn.clk = c12q.NewClock(at(now))
 	rn.gates = map[string]*gate{}
 	rn.dpq, rn.plugin = nil, nil
 	verifhook.SetSink(rn.sink)
@@ -216,11 +218,19 @@ func (rn *runner) start(o Op) {
 
 func (rn *runner) outstanding() int { rn.mu.Lock(); defer rn.mu.Unlock(); return rn.out }
 
+// tickOnce moves the clock by one tick without waking anybody
 func (rn *runner) tickOnce(now *int64) {
 	*now++
-	b := rn.tr.Stamp() // the advance precedes everything the woken goroutines do
-	rn.tr.AddAt(b, vh.Ev{"ev": "adv", "d": 1})
-	rn.clk.Set(at(*now))
+	rn.clk.SetNow(at(*now))
+	rn.tr.Add(vh.Ev{"ev": "adv", "d": 1})
+}
+
+// fire delivers the due timers one at a time (oldest first, or youngest first), letting the woken goroutine
+// run until everything is blocked again before the next one: races inside one instant are the driver's choice
+func (rn *runner) fire(rev bool) {
+	for rn.clk.FireNext(rev) {
+		rn.quiesce("timer")
+	}
 }
 
 func (rn *runner) quiet(what string) {
@@ -274,17 +284,20 @@ func main() {
 					rn.quiet("park")
 				case "tick":
 					rn.tickOnce(&now)
+					rn.fire(e.Rev)
 					rn.quiet("tick")
 				case "conc":
 					for _, o := range e.Ops {
 						rn.start(o)
 					}
 					rn.quiet("conc")
-				case "race":
+				case "race": // the arrivals run before the timers of the new instant are delivered
 					rn.tickOnce(&now)
 					for _, o := range e.Ops {
 						rn.start(o)
 					}
+					rn.quiesce("race arrivals")
+					rn.fire(e.Rev)
 					rn.quiet("race")
 				default:
 					vh.Die("unknown event %q", e.Ev)
@@ -298,6 +311,7 @@ func main() {
 					vh.Die("calls do not return")
 				}
 				rn.tickOnce(&now)
+				rn.fire(false)
 				rn.quiet("drain")
 			}
 			rn.running.Wait()
